@@ -165,6 +165,7 @@ func checkExpr(t *rapid.T, rec *ev.Rec, e *node, src string, rows [][]*val) {
 	fns.fns[e] = whole
 	emptyOr := orWithEmptyRange(src)
 	emptyDup := emptyPointDup(src)
+	refold := rq.shape != "plain" && absorbingConstKept(src)
 	poolMerge := constPoolMerge(src)
 	for rowi, row := range rows {
 		var canon strings.Builder
@@ -265,6 +266,7 @@ func checkExpr(t *rapid.T, rec *ev.Rec, e *node, src string, rows [][]*val) {
 				known(ww.divFirst, "const-numerator-division", " (where form)"),
 				known(ww.lossy, "int64-dnum-lossy-compare", " (where form)"),
 				known(ww.negPrefix, "negative-number-packed-prefix-order", " (where form)"),
+				known(refold, "transform-refold-drops-operands", " (where form)"),
 				known(emptyOr, "or-with-empty-range", " (where form)"),
 				known(emptyDup && tb == "t1", "composite-index-empty-point-duplicates", " (where form)"):
 				return
